@@ -2,7 +2,9 @@
 """Side module of tools/gen_coq.py: statement-by-statement translation of the checkfile functions of
 b3sum/src/main.rs into coq/gen/GenB3sumFns.v (properties C13 / C12).
 
-    gen_b3sum_fns()  ->  text of GenB3sumFns.v
+    gen_b3sum_fns()   ->  text of GenB3sumFns.v   (the checkfile parser)
+    gen_b3sum_fns2()  ->  text of GenB3sumFns2.v  (check_one_line, check_one_checkfile, write_hex_output, write_raw_output,
+                                                   hash_one_input, the closure of main; conventions at class FnW)
 
 The source text is tokenised and parsed by a small recursive-descent parser for the Rust subset these functions use;
 every statement / expression / method that has no translation rule below raises AnchorError (a broken tie).
@@ -40,7 +42,7 @@ TOKRE = re.compile(r"""
  |(?P<num>[0-9][0-9_]*(?:u8|u16|u32|u64|usize)?)
  |(?P<macro>[A-Za-z_][A-Za-z0-9_]*!(?!=))
  |(?P<id>[A-Za-z_][A-Za-z0-9_]*(?:::[A-Za-z_][A-Za-z0-9_]*)*)
- |(?P<op>\.\.|=>|==|!=|<=|>=|&&|\|\||->|[-+*/%&|^!<>=(){}\[\].,;:?\#])
+ |(?P<op>\.\.|=>|==|!=|<=|>=|-=|\+=|&&|\|\||->|[-+*/%&|^!<>=(){}\[\].,;:?\#])
 """, re.X | re.S)
 
 ESC = {"\\\\": 92, "\\n": 10, "\\r": 13, "\\t": 9, "\\0": 0, "\\'": 39, '\\"': 34}
@@ -411,6 +413,11 @@ class Parser:
             rhs = self.expr()
             self.eat(";")
             return ("assign", e, rhs)
+        for cop in ("-=", "+="):
+            if self.opt(cop):       # compound assignment: x op= e  is  x = x op e
+                rhs = self.expr()
+                self.eat(";")
+                return ("assign", e, ("bin", cop[0], e, rhs))
         semi = self.opt(";")
         if not semi and not self.at("}"):
             self.err("`;` expected")
@@ -463,7 +470,8 @@ NUMW = {"u8": 8, "usize": 64, "u64": 64}
 def rust_type(txt, where):
     t = txt.replace(" ", "")
     simple = {"&str": "str", "String": "str", "&String": "str", "char": "char", "u8": "u8", "usize": "usize", "u64": "u64",
-              "bool": "bool", "()": "unit", "&Path": "path", "PathBuf": "path", "blake3::Hash": "hash", "&mutu64": "u64"}
+              "bool": "bool", "()": "unit", "&Path": "path", "PathBuf": "path", "blake3::Hash": "hash", "&mutu64": "u64",
+              "&Args": "args", "blake3::OutputReader": "reader"}
     if t in simple:
         return simple[t]
     m = re.fullmatch(r"anyhow::Result<(.*)>", t)
@@ -480,8 +488,16 @@ def rust_type(txt, where):
 
 
 def coq_ty(t):
-    if t in ("str", "path", "hash", "arr", "chars"):
+    if t in ("str", "path", "hash", "arr", "chars", "err"):
         return "list N"
+    if t == "reader":
+        return "(stream * N)"
+    if t == "take":
+        return "((stream * N) * N)"
+    if t == "lines":
+        return "(list (list N + list N))"
+    if t in ("stdout_handle", "stdout_lock"):
+        return "unit"
     if t in ("char", "u8", "usize", "u64", "int"):
         return "N"
     if t == "bool":
@@ -511,6 +527,10 @@ def tuple_of(names):
 # translation of one function
 # ---------------------------------------------------------------------------
 FNS = {}  # name -> (param types, ret type, needs_fuel, coq name)
+FNW = {}  # effectful functions (GenB3sumFns2.v): name -> [(parameter, is `&mut`)] of the translated parameters
+FN_TEXT = {}
+WORLD = ["w_out", "w_err"]      # stdout, stderr: append-only lists threaded through the effectful functions
+MACRO_STREAM = {"print": "w_out", "println": "w_out", "eprintln": "w_err"}
 SECTION_VARS = [("ext_to_string_lossy", "list N -> list N"), ("cfg_windows", "bool")]
 
 
@@ -535,8 +555,23 @@ def mutated_in(node, acc):
                 tgt = tgt[2]
             if tgt[0] == "var" and tgt[1] not in acc:
                 acc.append(tgt[1])
-        if node and node[0] == "mcall" and node[2] in ("push_str", "next", "clear") and node[1][0] == "var" and node[1][1] not in acc:
+        if node and node[0] == "mcall" and node[2] in ("push_str", "next", "clear", "fill", "read_line") and node[1][0] == "var" and node[1][1] not in acc:
             acc.append(node[1][1])
+        if node and node[0] == "mcall" and node[2] in ("fill", "read_line"):
+            for a in node[3]:
+                if a[0] == "un" and a[1] == "&mut" and a[2][0] == "var" and a[2][1] not in acc:
+                    acc.append(a[2][1])
+        if node and node[0] == "macro" and node[1] in MACRO_STREAM and MACRO_STREAM[node[1]] not in acc:
+            acc.append(MACRO_STREAM[node[1]])
+        if node and node[0] == "call" and node[1] in FNW:
+            for a, (pn, mutref) in zip(node[2], FNW[node[1]]):
+                while a[0] == "un":
+                    a = a[2]
+                if mutref and a[0] == "var" and a[1] not in acc:
+                    acc.append(a[1])
+            for w in WORLD:
+                if w not in acc:
+                    acc.append(w)
         for x in node[1:]:
             mutated_in(x, acc)
     elif isinstance(node, list):
@@ -570,6 +605,13 @@ class Fn:
         self.aux = []       # auxiliary Fixpoints (loops)
         self.nloops = 0
         self.fuel = self.uses_fuel(self.body)
+
+    # hooks of the effectful variant (FnW): what an early return delivers, and the `?` operator
+    def wrap(self, t):
+        return t
+
+    def try_term(self, t):
+        return "ctry %s" % t
 
     def uses_fuel(self, node):
         if isinstance(node, tuple):
@@ -636,7 +678,7 @@ class Fn:
             if ty[0] != "res" or self.ret[0] != "res":
                 self.err("`?` on a non-Result")
             v = self.fresh()
-            b.append("%s <~ ctry %s ;;\n" % (v, t))
+            b.append("%s <~ %s ;;\n" % (v, self.try_term(t)))
             return b, v, ty[1]
         if k == "tuple":
             if not e[1]:
@@ -816,18 +858,22 @@ class Fn:
         if cty != "bool":
             self.err("condition is not a bool")
         tys = []
+        V = [v for v in mutated_in([th, el], []) if v in env]
 
         def fin(env2, v):
             if v is None:
                 self.err("if-expression arm without a value")
             tys.append(v[1])
-            return "cret %s" % v[0]
+            for x in V:
+                if env2[x] is None or coq_ty(env2[x]) != coq_ty(env[x]):
+                    self.err("variable %s changes its type in an if-expression" % x)
+            return "cret %s" % tuple_of([v[0]] + V)
         a1 = self.block(th, dict(env), fin)
         a2 = self.block(el, dict(env), fin)
         if len(tys) != 2 or coq_ty(tys[0]) != coq_ty(tys[1]):
             self.err("if-expression arms of different types")
         t = self.fresh()
-        b.append("%s <~ (if %s then\n%s\nelse\n%s) ;;\n" % (t, ct, a1, a2))
+        b.append("%s <~ (if %s then\n%s\nelse\n%s) ;;\n" % (t if not V else "'" + tuple_of([t] + V), ct, a1, a2))
         return b, t, tys[0]
 
     # ---------------- patterns ----------------
@@ -882,7 +928,7 @@ class Fn:
                 self.err("statements after return")
             b, t, ty = self.ex(s[1], env) if s[1] is not None else ([], "tt", "unit")
             self.check_ret(ty)
-            return "".join(b) + "creturn %s" % t
+            return "".join(b) + "creturn %s" % self.wrap(t)
         if k == "while":
             return self.while_let(s, rest, env, fin)
         if k == "for":
@@ -892,14 +938,14 @@ class Fn:
             if e[0] == "macro" and e[1] == "bail":
                 if rest or len(e[2]) != 1 or self.ret[0] != "res":
                     self.err("unsupported bail!")
-                return "creturn (inl %s)" % self.msg(e[2][0])
+                return "creturn %s" % self.wrap("(inl %s)" % self.msg(e[2][0]))
             if e[0] == "macro" and e[1] == "ensure":
                 if len(e[2]) != 2 or self.ret[0] != "res":
                     self.err("unsupported ensure!")
                 b, c, cty = self.ex(e[2][0], env)
                 if cty != "bool":
                     self.err("ensure! on a non-bool")
-                return "".join(b) + "if %s then\n%s\nelse creturn (inl %s)" % (c, self.block(rest, env, fin), self.msg(e[2][1]))
+                return "".join(b) + "if %s then\n%s\nelse creturn %s" % (c, self.block(rest, env, fin), self.wrap("(inl %s)" % self.msg(e[2][1])))
             if e[0] == "mcall" and e[2] == "push_str" and e[1][0] == "var" and env.get(e[1][1]) == "str" and len(e[3]) == 1 and s[2]:
                 b, t, ty = self.ex(e[3][0], env)
                 if ty != "str":
@@ -1101,6 +1147,487 @@ class Fn:
             self.coq, " (fuel : nat)" if self.fuel else "", sig, self.R, body)
 
 
+
+# ---------------------------------------------------------------------------
+# effectful functions (GenB3sumFns2.v): check_one_line, check_one_checkfile, write_hex_output, write_raw_output
+#
+# Additional conventions (part of the trusted base):
+#   * stdout / stderr are the append-only lists `w_out` / `w_err` (scalars for text, bytes for --raw); every translated
+#     function takes them as two extra parameters and returns (value, <its `&mut` parameters>, w_out, w_err); an early
+#     return / `?` delivers the current values.  print! / println! / eprintln! are `io_write_all` of the formatted text
+#     (only `{}` placeholders with str / anyhow::Error arguments; an error displays as its message);
+#   * `args: &Args` is not a parameter: `args.quiet()`, `args.len()`, `args.seek()` are the Section variables
+#     args_quiet, args_len, args_seek;
+#   * `blake3::OutputReader` is (stream, position); `OutputReader::fill` is Base/Str.v rd_fill over the oracle `ext_fill`;
+#     `hash_path` is `gen_hash_path` of the header (oracle `ext_hash_file`, position = args.seek(): its last three
+#     statements are pinned textually);
+#   * opening the checkfile (stdin or File::open, wrapped in a BufReader) is the oracle `ext_open_checkfile`, which
+#     delivers the pending `read_line` results (Base/Str.v s_read_line); that `if` statement is matched as a whole;
+#   * `std::io::copy(&mut reader.take(n), &mut stdout.lock())` is Base/Str.v io_copy_take (write_all of every piece);
+#     plain `Write::write` has no translation;
+#   * `loop { .. }` (last statement, left by `return` only) and `while cond { .. }` are Fixpoints on explicit fuel;
+#   * usize and u64 are both 64 bits wide (`as usize` / `as u64` between them is the identity).
+# ---------------------------------------------------------------------------
+SECTION_VARS2 = [("ext_to_string_lossy", "list N -> list N"), ("cfg_windows", "bool"), ("stream", "Type"), ("ext_hash_file", "list N -> list N + stream"),
+                 ("ext_fill", "stream -> N -> N -> list N"), ("ext_open_checkfile", "list N -> list N + list (list N + list N)"),
+                 ("ext_copy_buf", "N"), ("args_quiet", "bool"), ("args_len", "N"), ("args_seek", "N"),
+                 ("args_raw", "bool"), ("args_no_names", "bool"), ("args_tag", "bool"), ("args_check", "bool"),
+                 ("args_file_args", "list (list N)")]
+ARGS_METHODS = {"quiet": ("args_quiet", "bool"), "len": ("args_len", "u64"), "seek": ("args_seek", "u64"),
+                "raw": ("args_raw", "bool"), "no_names": ("args_no_names", "bool"), "tag": ("args_tag", "bool"),
+                "check": ("args_check", "bool")}
+ORDER2 = ["check_one_line", "check_one_checkfile", "write_hex_output", "write_raw_output", "hash_one_input"]
+# main: the statements before the closure (argument parsing, thread pool) are pinned textually; the closure body is translated.
+# `std::process::exit(c)` ends the run with Ok(c); an Err leaving the closure (`?`) is main's Err (status 1 from the runtime).
+MAIN_PREFIX = r"""fn main\(\) -> anyhow::Result<\(\)> \{
+    let args = Args::parse\(\)\?;
+    let mut thread_pool_builder = rayon_core::ThreadPoolBuilder::new\(\);
+    if let Some\(num_threads\) = args\.num_threads\(\) \{
+        thread_pool_builder = thread_pool_builder\.num_threads\(num_threads\);
+    \}
+    let thread_pool = thread_pool_builder\.build\(\)\?;
+    thread_pool\.install\(\|\| \{"""
+
+OPEN_TEMPLATE = """{ if path == Path::new("-") {
+        stdin = io::stdin();
+        stdin_lock = stdin.lock();
+        bufreader = io::BufReader::new(&mut stdin_lock);
+    } else {
+        file = File::open(path)?;
+        bufreader = io::BufReader::new(&mut file);
+    } }"""
+HASH_PATH_TAIL = r"let mut output_reader = hasher\.finalize_xof\(\);\s*output_reader\.set_position\(args\.seek\(\)\);\s*Ok\(output_reader\)\s*\}\s*$"
+
+
+def strip_ref(a):
+    while a[0] == "un" and a[1] in ("&", "&mut", "*"):
+        a = a[2]
+    return a
+
+
+class FnW(Fn):
+    def __init__(self, toks, name, parsed=None):
+        self.name = name
+        self.coq = "gen_" + name
+        params, ret, self.body = parsed if parsed else find_fn(toks, name)
+        self.params, self.mutrefs, self.args_name = [], [], ("args" if parsed else None)
+        for n, t in params:
+            ty = rust_type(t, name)
+            if ty == "args":
+                self.args_name = n
+                continue
+            self.params.append((n, ty))
+            if t.replace(" ", "").startswith("&mut"):
+                self.mutrefs.append(n)
+        self.ret = ret if parsed else rust_type(ret, name)
+        self.outs = self.mutrefs + WORLD
+        ptys = dict(self.params)
+        self.R = "(%s)" % " * ".join([coq_ty(self.ret)] + [coq_ty(ptys[m]) for m in self.mutrefs] + ["list N"] * len(WORLD))
+        self.tmp = 0
+        self.aux = []
+        self.nloops = 0
+        self.fuel = self.uses_fuel(self.body)
+        self.open_ast = Parser(tokenize(OPEN_TEMPLATE), 0, "template").block()[0][1]
+
+    def uses_fuel(self, node):
+        if isinstance(node, tuple) and node and node[0] == "call" and node[1] == "std::io::copy":
+            return True
+        return Fn.uses_fuel(self, node)
+
+    def wrap(self, t):
+        return "(%s)" % ", ".join([t] + self.outs)
+
+    def try_term(self, t):
+        return "ctryw (fun r_ => %s) %s" % (self.wrap("r_"), t)
+
+    # ---------------- expressions ----------------
+    def ex(self, e, env, want=None):
+        k = e[0]
+        if k == "var" and e[1] == "NAME" and "NAME" not in env:
+            m = G.find1(r'const NAME: &str = "([^"\\]*)";', G.src(FILE), "b3sum NAME")
+            return [], coq_list(str_codes(m.group(1), self.name)), "str"
+        if k == "var" and e[1] == "blake3::BLOCK_LEN":
+            G.src("src/lib.rs")
+            return [], "rs_BLOCK_LEN", "usize"
+        if k == "mcall" and strip_ref(e[1]) == ("var", self.args_name) and self.args_name not in env:
+            if e[2] not in ARGS_METHODS or e[3]:
+                self.err("no translation for args.%s" % e[2])
+            return [], ARGS_METHODS[e[2]][0], ARGS_METHODS[e[2]][1]
+        if k == "cast" and e[2] in ("u64", "usize"):
+            b, t, ty = self.ex(e[1], env)
+            if ty in ("u64", "usize"):
+                return b, t, e[2]
+            self.err("unsupported cast %r as %s" % (ty, e[2]))
+        if k == "index" and e[2] == ("range", None, None):
+            b, t, ty = self.ex(e[1], env)
+            if ty != "arr":
+                self.err("unsupported full-range index")
+            return b, t, ty
+        if k == "match":
+            return self.match_value(e, env)
+        return Fn.ex(self, e, env, want)
+
+    def call(self, e, env):
+        f, args = e[1], e[2]
+        if f in FNW or f == "hash_path":
+            args = [a for a in args if strip_ref(a) != ("var", self.args_name)]
+        if f == "hash_path":
+            if len(args) != 1:
+                self.err("hash_path: unexpected arguments")
+            b, t, ty = self.ex(args[0], env)
+            if ty != "path":
+                self.err("hash_path of a non-path")
+            return b, "(gen_hash_path %s)" % t, ("res", "reader")
+        if f in FNW:
+            ptys, rty, fuel, cn = FNS[f]
+            if len(args) != len(ptys):
+                self.err("call of %s with %d arguments" % (f, len(args)))
+            bs, ts, outs = [], [], []
+            for x, pt, (pn, mutref) in zip(args, ptys, FNW[f]):
+                if mutref:
+                    v = strip_ref(x)
+                    if not (v[0] == "var" and (x[:2] == ("un", "&mut") or v[1] in self.mutrefs) and env.get(v[1]) is not None):
+                        self.err("argument %s of %s must be a `&mut` variable" % (pn, f))
+                    outs.append(v[1])
+                b, t, ty = self.ex(x, env)
+                if coq_ty(ty) != coq_ty(pt):
+                    self.err("argument of %s has type %r" % (f, ty))
+                bs += b
+                ts.append(t)
+            t = self.fresh()
+            bs.append("'%s <~ clift (%s %s%s) ;;\n" % (tuple_of([t] + outs + WORLD), cn, "fuel " if fuel else "", " ".join(ts + WORLD)))
+            return bs, t, rty
+        if f == "String::new" and not args:
+            return [], "[]", "str"
+        if f == "std::io::stdout" and not args:
+            return [], "tt", "stdout_handle"
+        if f == "hex::encode" and len(args) == 1:
+            b, t, ty = self.ex(args[0], env)
+            if ty != "arr":
+                self.err("hex::encode of %r" % (ty,))
+            return b, "(s_hex_encode %s)" % t, "str"
+        if f == "cmp::min" and len(args) == 2:
+            b1, a, ta = self.ex(args[0], env)
+            b2, c, tc = self.ex(args[1], env)
+            if ta != tc or ta not in NUMW:
+                self.err("cmp::min of %r and %r" % (ta, tc))
+            return b1 + b2, "(N.min %s %s)" % (a, c), ta
+        if f == "std::io::copy" and len(args) == 2:
+            r, w = args
+            if not (r[:2] == ("un", "&mut") and r[2][0] == "var" and env.get(r[2][1]) == "take"
+                    and w[:2] == ("un", "&mut") and w[2][0] == "var" and env.get(w[2][1]) == "stdout_lock"):
+                self.err("io::copy: only `&mut <OutputReader.take(n)>` into `&mut <stdout lock>` is translated")
+            rv = r[2][1]
+            t = self.fresh()
+            return (["'(%s, %s, w_out) <~ clift (io_copy_take ext_fill ext_copy_buf fuel (fst %s) (snd %s) w_out 0) ;;\n" % (t, rv, rv, rv)],
+                    "(inr %s)" % t, ("res", "u64"))
+        return Fn.call(self, e, env)
+
+    def mcall(self, e, env, want):
+        recv, m, args = e[1], e[2], e[3]
+        rv = strip_ref(recv)
+        rty = env.get(rv[1]) if rv[0] == "var" else None
+        if rty == "lines" and m == "read_line" and len(args) == 1 and args[0][:2] == ("un", "&mut") and args[0][2][0] == "var" \
+                and env.get(args[0][2][1]) == "str":
+            t = self.fresh()
+            ln = args[0][2][1]
+            return ["let '(%s, %s, %s) := s_read_line %s %s in\n" % (t, ln, rv[1], rv[1], ln)], t, ("res", "usize")
+        if rty == "reader" and m == "take" and len(args) == 1:
+            b, n, nty = self.ex(args[0], env)
+            if nty != "u64":
+                self.err("take of a non-u64")
+            return b, "(%s, %s)" % (rv[1], n), "take"
+        if rty == "stdout_handle" and m == "lock" and not args:
+            return [], "tt", "stdout_lock"
+        if rty == "arr" and m == "len" and not args:
+            return [], "(a_len %s)" % rv[1], "usize"
+        if rty in ("reader", "take", "lines", "stdout_handle", "stdout_lock"):
+            self.err("no translation for method `%s` on %r" % (m, rty))
+        return Fn.mcall(self, e, env, want)
+
+    def pat(self, p, ty, env):
+        if p[0] == "pctor" and p[1] in ("Ok", "Err") and len(p[2]) == 1 and ty[0] == "res":
+            return ("inr " if p[1] == "Ok" else "inl ") + self.pat(p[2][0], ty[1] if p[1] == "Ok" else "err", env)
+        return Fn.pat(self, p, ty, env)
+
+    def fmt(self, args, env, newline):
+        """text of print!/println!/eprintln!: (binds, term)"""
+        if not args:
+            return [], coq_list([10] if newline else [])
+        f = args[0]
+        if f[0] != "str":
+            self.err("format string must be a literal")
+        pieces = f[2].split("{}")
+        if any("{" in p or "}" in p for p in pieces) or len(pieces) != len(args):
+            self.err("unsupported format string %r" % f[2])
+        bs, parts = [], []
+        for i, p in enumerate(pieces):
+            if p:
+                parts.append(coq_list(str_codes(p, self.name)))
+            if i < len(pieces) - 1:
+                b, t, ty = self.ex(args[i + 1], env)
+                if ty == "u64":
+                    t = "(s_u64_to_string %s)" % t
+                elif ty not in ("str", "err"):
+                    self.err("format argument of type %r" % (ty,))
+                bs += b
+                parts.append(t)
+        if newline:
+            parts.append("[10]")
+        return bs, "(" + " ++ ".join(parts) + ")" if parts else "[]"
+
+    def arms_res(self, e, env):
+        b, t, ty = self.ex(e[1], env)
+        arms = e[2]
+        if ty[0] != "res" or len(arms) != 2 or sorted(p[1] if p[0] == "pctor" else "?" for p, _ in arms) != ["Err", "Ok"] \
+                or any(len(p[2]) != 1 for p, _ in arms):
+            self.err("unsupported match (a Result with one `Ok(..)` and one `Err(..)` arm expected)")
+        return b, t, ty, arms
+
+    def match_value(self, e, env):
+        b, t, ty, arms = self.arms_res(e, env)
+        V = [v for v in mutated_in([a for _, a in arms if not diverges(a)], []) if v in env]
+        tys = []
+
+        def fin(env2, v):
+            if v is None:
+                self.err("match arm without a value")
+            tys.append(v[1])
+            for x in V:
+                if env2[x] is None or coq_ty(env2[x]) != coq_ty(env[x]):
+                    self.err("variable %s changes its type in a match" % x)
+            return "cret %s" % tuple_of([v[0]] + V)
+        text = "match %s with\n" % t
+        for p, a in arms:
+            env_a = dict(env)
+            cp = self.pat(p[2][0], ty[1] if p[1] == "Ok" else "err", env_a)
+            text += "| %s %s =>\n%s\n" % ("inr" if p[1] == "Ok" else "inl", cp, self.block(a, env_a, fin))
+        text += "end"
+        if not tys or any(coq_ty(x) != coq_ty(tys[0]) for x in tys):
+            self.err("match arms of different types")
+        r = self.fresh()
+        b.append("%s <~ (%s) ;;\n" % (r if not V else "'" + tuple_of([r] + V), text))
+        return b, r, tys[0]
+
+    def match_stmt(self, e, rest, env, fin):
+        if e[1][0] == "call" and e[1][1] in ("hash_path",) or (e[1][0] == "var" and isinstance(env.get(e[1][1]), tuple) and env[e[1][1]][0] == "res"):
+            b, t, ty, arms = self.arms_res(e, env)
+            V = [v for v in mutated_in([a for _, a in arms if not diverges(a)], []) if v in env]
+            if not V:
+                self.err("match statement without effect on the translated state")
+            tys = {}
+
+            def fin_v(env2, v):
+                if v is not None:
+                    self.err("unexpected value in a statement arm")
+                for x in V:
+                    if env2[x] is None:
+                        self.err("variable %s is not assigned on every path" % x)
+                    if x in tys and coq_ty(tys[x]) != coq_ty(env2[x]):
+                        self.err("variable %s gets different types" % x)
+                    tys.setdefault(x, env2[x])
+                return "cret %s" % tuple_of(V)
+            text = "match %s with\n" % t
+            for p, a in arms:
+                env_a = dict(env)
+                cp = self.pat(p[2][0], ty[1] if p[1] == "Ok" else "err", env_a)
+                text += "| %s %s =>\n%s\n" % ("inr" if p[1] == "Ok" else "inl", cp, self.block(a, env_a, fin_v))
+            text += "end"
+            for x in V:
+                env[x] = tys[x]
+            pat = V[0] if len(V) == 1 else "'" + tuple_of(V)
+            return "".join(b) + "%s <~ (%s) ;;\n" % (pat, text) + self.block(rest, env, fin)
+        return Fn.match_stmt(self, e, rest, env, fin)
+
+    # ---------------- statements ----------------
+    def block(self, ss, env, fin):
+        if ss:
+            s, rest = ss[0], ss[1:]
+            if s[0] == "expr":
+                e = s[1]
+                if e[0] == "macro" and e[1] in MACRO_STREAM and s[2]:
+                    b, t = self.fmt(e[2], env, e[1] != "print")
+                    w = MACRO_STREAM[e[1]]
+                    return "".join(b) + "let %s := io_write_all %s %s in\n" % (w, w, t) + self.block(rest, env, fin)
+                if e[0] == "mcall" and e[2] == "fill" and s[2] and len(e[3]) == 1 and e[1][0] == "var" and env.get(e[1][1]) == "reader" \
+                        and e[3][0][:2] == ("un", "&mut") and e[3][0][2][0] == "var" and env.get(e[3][0][2][1]) == "arr":
+                    r, a = e[1][1], e[3][0][2][1]
+                    return "let '(%s, %s) := rd_fill ext_fill %s %s in\n" % (a, r, r, a) + self.block(rest, env, fin)
+                if e[0] == "mcall" and e[2] == "clear" and s[2] and not e[3] and e[1][0] == "var" and env.get(e[1][1]) == "str":
+                    return "let %s := [] in\n" % e[1][1] + self.block(rest, env, fin)
+                if e[0] == "if" and e == self.open_ast:
+                    if env.get("path") != "path" or "bufreader" not in env or env["bufreader"] is not None:
+                        self.err("checkfile opening idiom in an unexpected context")
+                    t = self.fresh()
+                    env["bufreader"] = "lines"
+                    return "%s <~ %s ;;\nlet bufreader := %s in\n" % (t, self.try_term("(ext_open_checkfile path)"), t) + self.block(rest, env, fin)
+                if e[0] == "call" and e[1] == "std::process::exit" and len(e[2]) == 1 and s[2] and not rest and self.ret == ("res", "int"):
+                    b, t, ty = self.ex(e[2][0], env)
+                    if ty != "int":
+                        self.err("exit status must be a literal choice")
+                    return "".join(b) + "creturn %s" % self.wrap("(inr %s)" % t)
+            if s[0] == "loop":
+                return self.loop_stmt(s, rest, env, fin)
+            if s[0] == "for" and strip_ref(s[2]) == ("field", ("var", self.args_name), "file_args") and self.args_name not in env:
+                return self.for_paths(s, rest, env, fin)
+            if s[0] == "while" and not (isinstance(s[1], tuple) and s[1][0] == "let"):
+                return self.while_cond(s, rest, env, fin)
+        return Fn.block(self, ss, env, fin)
+
+    def loop_stmt(self, s, rest, env, fin):
+        if rest:
+            self.err("`loop` must be the last statement (it is left by `return` only)")
+        body = s[1]
+        self.nloops += 1
+        fname = "%s_loop%d" % (self.coq, self.nloops)
+        S, Rd = self.loop_sig([body], env)
+        if any(env[v] is None for v in S):
+            self.err("loop state is not initialised")
+        call = "%s fuel %s" % (fname, " ".join(Rd + S))
+        sty = {v: coq_ty(env[v]) for v in S}
+
+        def back(env2, v):
+            if v is not None or any(coq_ty(env2[x]) != sty[x] for x in S):
+                self.err("loop body changes the type of its state")
+            return call
+        btxt = self.block(body, dict(env), back)
+        sig = " ".join("(%s : %s)" % (v, coq_ty(env[v])) for v in Rd + S)
+        self.aux.append("Fixpoint %s (fuel : nat) %s {struct fuel} : ctl %s %s :=\nmatch fuel with\n| O => OutOfFuel\n| S fuel =>\n%s\nend.\n"
+                        % (fname, sig, self.R, self.R, btxt))
+        return call
+
+    def for_paths(self, s, rest, env, fin):
+        pat, body = s[1], s[3]
+        if pat[0] != "pvar" or pat[1] in env:
+            self.err("unsupported for pattern")
+        x = pat[1]
+        if body and body[-1][0] == "expr" and body[-1][1][0] in ("if", "match") and not body[-1][2]:
+            body = body[:-1] + [("expr", body[-1][1], True)]        # the last `if` of a loop body is a statement
+        self.nloops += 1
+        fname = "%s_for%d" % (self.coq, self.nloops)
+        S, Rd = self.loop_sig([body], env)
+        if not S or any(env[v] is None for v in S):
+            self.err("for loop without (initialised) state")
+        fl = "fuel " if self.fuel else ""
+        rec = "%s %s%s" % (fname, fl, " ".join(Rd + ["iter"] + S))
+        sty = {v: coq_ty(env[v]) for v in S}
+
+        def back(env2, v):
+            if v is not None or any(coq_ty(env2[y]) != sty[y] for y in S):
+                self.err("loop body changes the type of its state")
+            return rec
+        benv = dict(env)
+        benv[x] = "path"
+        btxt = self.block(body, benv, back)
+        sig = " ".join(["(%s : %s)" % (v, coq_ty(env[v])) for v in Rd] + ["(iter : list (list N))"] + ["(%s : %s)" % (v, sty[v]) for v in S])
+        self.aux.append("Fixpoint %s %s%s {struct iter} : ctl %s (%s) :=\nmatch iter with\n| [] => cret %s\n| %s :: iter =>\n%s\nend.\n"
+                        % (fname, "(fuel : nat) " if self.fuel else "", sig, self.R, " * ".join(sty[v] for v in S), tuple_of(S), x, btxt))
+        pat_s = S[0] if len(S) == 1 else "'" + tuple_of(S)
+        return "%s <~ %s %s%s ;;\n" % (pat_s, fname, fl, " ".join(Rd + ["args_file_args"] + S)) + self.block(rest, env, fin)
+
+    def while_cond(self, s, rest, env, fin):
+        c, body = s[1], s[2]
+        self.nloops += 1
+        fname = "%s_while%d" % (self.coq, self.nloops)
+        S, Rd = self.loop_sig([c, body], env)
+        if not S or any(env[v] is None for v in S):
+            self.err("while loop without (initialised) state")
+        b, t, ty = self.ex(c, dict(env))
+        if b or ty != "bool":
+            self.err("unsupported while condition")
+        call = "%s fuel %s" % (fname, " ".join(Rd + S))
+        sty = {v: coq_ty(env[v]) for v in S}
+
+        def back(env2, v):
+            if v is not None or any(coq_ty(env2[x]) != sty[x] for x in S):
+                self.err("loop body changes the type of its state")
+            return call
+        btxt = self.block(body, dict(env), back)
+        sig = " ".join("(%s : %s)" % (v, coq_ty(env[v])) for v in Rd + S)
+        self.aux.append("Fixpoint %s (fuel : nat) %s {struct fuel} : ctl %s (%s) :=\nif %s then\nmatch fuel with\n| O => OutOfFuel\n| S fuel =>\n%s\nend\nelse cret %s.\n"
+                        % (fname, sig, self.R, " * ".join(sty[v] for v in S), t, btxt, tuple_of(S)))
+        pat = S[0] if len(S) == 1 else "'" + tuple_of(S)
+        return "%s <~ %s ;;\n" % (pat, call) + self.block(rest, env, fin)
+
+    def translate(self):
+        env = {n: t for n, t in self.params}
+        for w in WORLD:
+            if w in env:
+                self.err("parameter named %s" % w)
+            env[w] = "str"
+
+        def fin(env2, v):
+            if v is None:
+                if self.ret != "unit":
+                    self.err("function body ends without a value")
+                return "cret %s" % self.wrap("tt")
+            self.check_ret(v[1])
+            return "cret %s" % self.wrap(v[0])
+        body = self.block(self.body, env, fin)
+        sig = "".join(" (%s : %s)" % (n, coq_ty(t)) for n, t in self.params) + "".join(" (%s : list N)" % w for w in WORLD)
+        head = "(* fn %s *)\n" % self.name
+        return head + "".join(a + "\n" for a in self.aux) + "Definition %s%s%s : res %s :=\ncrun (\n%s).\n" % (
+            self.coq, " (fuel : nat)" if self.fuel else "", sig, self.R, body)
+
+
+def fn1_section_vars(name, seen=()):
+    text = FN_TEXT[name]
+    used = {v for v, _ in SECTION_VARS if re.search(r"\b%s\b" % v, text)}
+    for other in FN_TEXT:
+        if other != name and other not in seen and re.search(r"\bgen_%s\b" % other, text):
+            used |= fn1_section_vars(other, seen + (name,))
+    return used
+
+
+def gen_b3sum_fns2():
+    gen_b3sum_fns()                 # the functions of GenB3sumFns.v are callable from here
+    FNW.clear()
+    source = G.src(FILE)
+    toks = tokenize(source)
+    for name in list(FN_TEXT):
+        used = fn1_section_vars(name)
+        for v in used:
+            if v not in dict(SECTION_VARS2):
+                raise AnchorError("b3sumfns2: %s needs the parameter %s" % (name, v))
+        p, r, fuel, cn = FNS[name]
+        FNS[name] = (p, r, fuel, " ".join([cn] + [v for v, _ in SECTION_VARS if v in used]))
+    m = re.search(r"\nfn hash_path\(args: &Args, path: &Path\) -> anyhow::Result<blake3::OutputReader> \{\n(.*?\n\})\n", source, re.S)
+    if not m or not re.search(HASH_PATH_TAIL, m.group(1)) or len(re.findall(r"set_position", source)) != 1 or "return" in m.group(1):
+        raise AnchorError("b3sumfns2: hash_path does not end with finalize_xof / set_position(args.seek()) / Ok(output_reader)")
+    for meth, (var, ty) in ARGS_METHODS.items():
+        field = {"len": "length"}.get(meth, meth)
+        G.find1(r"fn %s\(&self\) -> %s \{\s*self\.inner\.%s\s*\}" % (meth, "bool" if ty == "bool" else "u64", field), source, "Args::" + meth)
+    out = ["(* GENERATED by tools/gen_coq_b3sumfns.py (side module of tools/gen_coq.py) from b3sum/src/main.rs. Do not edit. *)\n"
+           "From Coq Require Import NArith List Bool.\nFrom V Require Import Base.Res Base.MachInt Base.Str gen.GenConsts gen.GenB3sumFns.\n"
+           "Import ListNotations.\nOpen Scope N_scope.\n\nSection B3sumFns2.\n"]
+    for v, t in SECTION_VARS2:
+        out.append("Variable %s : %s.\n" % (v, t))
+    out.append("\n(* fn hash_path: hashing the file is the oracle ext_hash_file; the reader starts at args.seek() (tail of the body pinned textually) *)\n"
+               "Definition gen_hash_path (path : list N) : list N + (stream * N) :=\n"
+               "  match ext_hash_file path with inl e => inl e | inr s => inr (s, args_seek) end.\n\n")
+    for name in ORDER2:
+        f = FnW(toks, name)
+        text = f.translate()
+        FNS[name] = ([t for _, t in f.params], f.ret, f.fuel, f.coq)
+        FNW[name] = [(n, n in f.mutrefs) for n, _ in f.params]
+        out.append(indent(text) + "\n")
+    # main: the closure run by the thread pool
+    m = re.search(MAIN_PREFIX, source)
+    if not m or len(re.findall(r"\|\|\s*\{", source)) != 1:
+        raise AnchorError("b3sumfns2: main does not start as expected")
+    hits = [i for i in range(len(toks) - 5) if toks[i:i + 6] == [("id", "thread_pool"), ("op", "."), ("id", "install"), ("op", "("), ("op", "||"), ("op", "{")]]
+    if len(hits) != 1:
+        raise AnchorError("b3sumfns2: thread_pool.install(|| {..}) found %d times" % len(hits))
+    p = Parser(toks, hits[0] + 5, "main")
+    body = p.block()
+    if [v for _, v in toks[p.p:p.p + 3]] != [")", "}", "#"]:
+        raise AnchorError("b3sumfns2: main continues after the closure")
+    f = FnW(toks, "main", parsed=([], ("res", "int"), body))
+    out.append(indent(f.translate()) + "\n")
+    out.append("End B3sumFns2.\n")
+    return "".join(out)
+
+
 def indent(text):
     """cosmetic: indent by nesting of match/end and parentheses"""
     out, depth = [], 0
@@ -1147,6 +1674,7 @@ def gen_b3sum_fns():
         f = Fn(toks, name)
         text = f.translate()
         FNS[name] = ([t for _, t in f.params], f.ret, f.fuel, f.coq)
+        FN_TEXT[name] = text
         out.append(indent(text) + "\n")
     out.append("End B3sumFns.\n")
     return "".join(out)
@@ -1160,3 +1688,10 @@ if __name__ == "__main__":
         sys.exit(1)
     path = os.path.join(G.OUT, "GenB3sumFns.v")
     print("changed" if G.write_if_changed(path, text) else "unchanged", path)
+    try:
+        text2 = gen_b3sum_fns2()
+    except AnchorError as e:
+        print("AnchorError:", e)
+        sys.exit(1)
+    path = os.path.join(G.OUT, "GenB3sumFns2.v")
+    print("changed" if G.write_if_changed(path, text2) else "unchanged", path)
